@@ -72,7 +72,8 @@ pub fn check_even(stats: &mut Stats, w: &Cub, class: &str, distance: f64, max_er
     if let Some((i, ch)) = off.first() {
         let worst = off.iter().fold(0.0f64, |m, (_, ch)| m.max((ch - distance).abs()));
         let place = if *i + 2 == secs.len() { "last_but_one_section" } else if *i == 0 { "first_section" } else { "inner_section" };
-        stats.fail("C15", &format!("walk_even.chord_off_distance.{}.{}", class, place), &format!("{} {} of {} sections off; first: section {} = {:?} has chord {:?} (|chord-distance|={:e}); worst deviation {:e}", desc, off.len(), body.len(), i, secs[*i], ch, (ch - distance).abs(), worst));
+        let hk = if class == "hook" { format!(".input_{:016x}", fnv(&format!("{} {:?} {:?}", fmt_cub(w), distance, max_error))) } else { String::new() };
+        stats.fail("C15", &format!("walk_even.chord_off_distance.{}.{}{}", class, place, hk), &format!("{} {} of {} sections off; first: section {} = {:?} has chord {:?} (|chord-distance|={:e}); worst deviation {:e}", desc, off.len(), body.len(), i, secs[*i], ch, (ch - distance).abs(), worst));
     }
 }
 
@@ -127,6 +128,18 @@ pub fn search(seed: u64, n: u64) {
         let distance = unit * ratio;
         let max_error = distance * rng.r(0.01, 0.25);
         check_even(&mut stats, &w, class, distance, max_error, length);
+        if it % 4 == 3 {
+            // the regime in which the step controller converges only linearly: a hooked cubic (the curve runs out and turns back sharply, speed
+            // well above 0), a step of 10% .. 70% of the length and a tolerance of 1% .. 5% of the step
+            let a = Coord2(rng.r(20.0, 80.0), rng.r(20.0, 80.0));
+            let ang = rng.r(0.0, std::f64::consts::TAU);
+            let out = Coord2(ang.cos(), ang.sin());
+            let side = Coord2(-out.1, out.0);
+            let hw = [a, a + out * rng.r(40.0, 70.0) + side * rng.r(-5.0, 5.0), a + out * rng.r(40.0, 70.0) + side * rng.r(8.0, 20.0), a + out * rng.r(0.0, 15.0) + side * rng.r(8.0, 25.0)];
+            let hl = polyline_length(&hw, 2000);
+            let hd = hl * rng.r(0.1, 0.7);
+            check_even(&mut stats, &hw, "hook", hd, hd * rng.r(0.01, 0.05), hl);
+        }
         // n = 1..=300 in turn, then thousand-scale values
         let un = if it % 50 == 49 { big[((it / 50) % big.len() as u64) as usize] } else { (it % 300) as usize + 1 };
         check_uneven(&mut stats, &w, class, un);
